@@ -18,6 +18,7 @@ import (
 	_ "go.nanomsg.org/mangos/v3/vh/c16"
 	_ "go.nanomsg.org/mangos/v3/vh/c17"
 	_ "go.nanomsg.org/mangos/v3/vh/c18"
+	_ "go.nanomsg.org/mangos/v3/vh/c19"
 	"go.nanomsg.org/mangos/v3/vz/vexplore"
 )
 
